@@ -120,6 +120,9 @@ func genC10(r *Rand, tier string, ord int) *Trial {
 	if many {
 		n = r.Range(60, 150)
 		kind = "generated-many"
+		if r.P(0.2) {
+			n, kind = r.Range(300, 600), "generated-many-hundreds"
+		}
 	}
 	ref := genRefSeq(r, w)
 	if r.P(0.15) {
@@ -141,6 +144,13 @@ func genC10(r *Rand, tier string, ord int) *Trial {
 	}
 	t := &Trial{Kind: kind, Case: Case{Cmd: "updownlist", Files: map[string]string{"ref": ">ref\n" + ref + "\n", "query": q.FASTA(genLayout(r))}}, Params: map[string]string{}}
 	t.Runs = genRunCfgs(r, 3)
+	if many {
+		scaleHorizon(t.Runs, 8*n)
+		if r.P(0.5) {
+			t.Runs[0].Strat = simrt.Strategy{Kind: simrt.StratPCT, Depth: r.Range(1, 3), Horizon: 5 * n, SelectRand: true}
+			t.Runs[0].NumCPU = r.PickInt(2, 3, 4, 8)
+		}
+	}
 	return t
 }
 
